@@ -78,7 +78,6 @@ def pureBody (t : FTy) (q : Nat) (exponent : Int) (E0 : Int) (zi deltai : Nat) (
     (px py : Bool × Bool) : Nat × Int :=
     let isEven := q % 2 = 0
     let bigDivisor := 10 * 10 ^ t.kappa.toNat
-    let smallDivisor := 10 ^ t.kappa.toNat
     let significand := zi / bigDivisor
     let r := zi % bigDivisor
     let (significand, r, shortCircuit) : Nat × Nat × Bool :=
